@@ -2,6 +2,7 @@
 import time
 
 import units_path
+import units_verus
 from core import finish
 
 GLOBAL_TRUST = [
@@ -65,4 +66,94 @@ def c14(tier, seed):
     return finish("C14", tier, seed, obs, meta, t0, replay_fn=units_path.replay("C14"))
 
 
-PROPS = {"C03": c03, "C14": c14}
+LAYOUT_TRUST = [
+    "extraction rules R1-R10 (engine/vextract.py): logging blanked, token macros -> env constructors (R4 table in contracts/layout.py), pub(crate)->pub, private fields->pub",
+    "env/layout_env.rs: Rust reference layout rules for the emitted type tokens (u8..u128, [T;n], #[repr(C)] wrapper, #[repr(C, align(N))] wrapper), transcribed",
+    "uninterpreted context reads: ctx.options(), ctx.target_pointer_size() in {2,4,8}, comp.is_union(), Type::layout (sound: proved for every value)",
+    "cmp::max/min = the obvious functions (env mod cmp)",
+    "magnitudes: sizes, offsets, alignments < 2^60; alignments reported by libclang are 0 or powers of two (valid_layout)",
+]
+LAYOUT_FNS = ["bindgen/codegen/struct_layout.rs: align_to, StructLayoutTracker::{padding_bytes, align_to_latest_field, padding_field, saw_vtable, saw_base, saw_bitfield_unit, saw_field_with_layout, add_tail_padding, pad_struct, requires_explicit_align}",
+              "bindgen/ir/layout.rs: Layout::{known_type_for_size, new, for_size_internal, for_size}",
+              "bindgen/codegen/helpers.rs: blob, integer_type, bitfield_unit"]
+
+
+def _replay(prop):
+    kr, vr = units_path.replay(prop), units_verus.replay(prop)
+
+    def f(ob):
+        return kr(ob) if ob.backend.startswith("kani") else vr(ob)
+    return f
+
+
+def _verus_prop(prop, tier, seed, unit_filters, meta_extra, extra_obs=None):
+    t0 = time.time()
+    obs, cmds, logs = [], [], []
+    for unit, fn_rx, cl_rx in unit_filters:
+        o, cmd, log, path = units_verus.run_unit(unit)
+        obs += units_verus.select(o, fn_rx, cl_rx)
+        cmds.append(cmd)
+        logs += [dict(l, unit=unit) for l in log]
+    if extra_obs:
+        eo, ecmd = extra_obs()
+        obs += eo
+        cmds.append(ecmd)
+    meta = {"checker_cmd": " ; ".join(cmds), "extraction": logs}
+    meta.update(meta_extra)
+    meta["trusted_base"] = GLOBAL_TRUST + meta.get("trusted_base", [])
+    return finish(prop, tier, seed, obs, meta, t0, replay_fn=_replay(prop))
+
+
+def c02(tier, seed):
+    return _verus_prop("C02", tier, seed, [("layout", None, None)], {
+        "trusted_base": LAYOUT_TRUST,
+        "functions_under_contract": LAYOUT_FNS,
+        "assumptions": [
+            "placement theorem (saw_field_with_layout post#4) region: not packed, not a union, clang reported the field offset (multiple of 8 bits, >= running offset, multiple of the field alignment), the Rust struct built so far ends at the tracker's running offset and that is a multiple of the previous field's alignment; the Rust type of the field has the alignment clang reports",
+            "size theorem (pad_struct post#3) region: C size >= running offset and multiple of the C alignment <= 8, last field not a bit-field, packed only with alignment 1, and NOT (padding >= 8 emitted with alignment 8 from an offset/length that is not a multiple of 8) -- that sub-region is unverified (no real input known that reaches it)",
+            "libclang's numbers (Type::layout, field offsets) are the C compiler's",
+        ],
+        "unverified": [
+            "CompInfo::codegen: the order of saw_* calls, repr/packed attribute selection (CompInfo::is_packed, already_packed), that returned padding tokens are emitted in place",
+            "StructLayoutTracker::saw_field (array 'ultra hack', needs live IR), ::new",
+            "packed structs, unions and fields after a bit-field unit are covered by invariant + safety only",
+            "int_kind_rust_type / float_kind_rust_type / Enum::codegen repr (need a live context); C++ tail-padding reuse",
+        ]})
+
+
+def c10(tier, seed):
+    return _verus_prop("C10", tier, seed, [("layout", r"::(blob|Layout::known_type_for_size|Layout::for_size_internal|Layout::for_size|integer_type|bitfield_unit|Layout::new|align_to)::", None)], {
+        "trusted_base": LAYOUT_TRUST,
+        "functions_under_contract": ["bindgen/codegen/helpers.rs: blob, integer_type, bitfield_unit", "bindgen/ir/layout.rs: Layout::{known_type_for_size, new, for_size_internal, for_size}"],
+        "assumptions": [
+            "opaque-blob half of C10 only: for every Layout with size % max(align,1) == 0 (what libclang reports for a complete type) the emitted blob type has exactly that size and alignment (blob post#0-#2), on both the ffi_safe and the padding path",
+        ],
+        "unverified": [
+            "Item::is_blocklisted, IsOpaque, that opaque items stop tracing, blocklisted_type_implements_trait (IR/regex-bound): the blocklist half of C10 is not decided",
+        ]})
+
+
+def _from_str_witnesses():
+    spec = [dict(harness="features_contracts::" + h, name="features::RustTarget::from_str::witness(%s)" % h.split("witness_")[1],
+                 kind="bounded", fn="bindgen/features.rs:RustTarget::from_str (concrete inputs only)")
+            for h in ("from_str_witness_nightly_underflow", "from_str_witness_nightly_underflow_patch", "from_str_witness_accepts")]
+    obs, cmd, prep = units_path.run_spec(spec, timeout=900)
+    return obs, cmd
+
+
+def c12(tier, seed):
+    units = [("layout", None, r"^(safety|decreases.*)$")]
+    return _verus_prop("C12", tier, seed, units, {
+        "trusted_base": LAYOUT_TRUST + ["alloc::fmt::format stubbed in the from_str witness harnesses (message text irrelevant)"],
+        "functions_under_contract": LAYOUT_FNS,
+        "assumptions": [
+            "panic-freedom (no arithmetic overflow/underflow, division by zero, unwrap on None, failed precondition of a callee) and loop termination of the functions under contract, under the preconditions inv() && small() && valid_layout(..)",
+            "RustTarget::from_str: three concrete-input witness harnesses only (bounded, not counted as proved)",
+        ],
+        "bounds": "from_str witnesses: concrete strings \"1.0-nightly\", \"1.0.0-nightly\", \"1.83.1-nightly\", \"nightly\", \"1.71\"",
+        "unverified": [
+            "the several hundred expect/unwrap/unreachable!/assert! sites whose preconditions are shapes of the libclang AST; termination and stack depth of the IR walkers; error paths of Builder::generate (file system, libclang)",
+        ]}, extra_obs=_from_str_witnesses)
+
+
+PROPS = {"C02": c02, "C03": c03, "C10": c10, "C12": c12, "C14": c14}
